@@ -2,7 +2,7 @@
    baseline, the plan, the replayed result and (parsed by tools/mysql_sqlparse.py) the MySQL statements THE
    IMPLEMENTATION emitted; everything below is evaluated by vm_compute on those terms.  No proofs here. *)
 From VV.M1 Require Export Corr.
-From VV.MYSQL Require Export Engine Assumptions Known Spec SpecKeys.
+From VV.MYSQL Require Export Engine Assumptions Known Spec SpecKeys SpecCreate.
 
 Inductive impl_result :=
 | IOk (l : list (list stmt))      (* per action, empty strings dropped *)
@@ -130,8 +130,11 @@ Fixpoint sim_stats_plan (s : schema) (acts : list action) : nat * nat :=
   | [] => (0, 0)%nat
   | a :: r => let '(n, k) := sim_stats_plan (step s a) r in (S n, if sim_proved_for s a then S k else k)
   end.
-Definition sim_stats (cs : list mysql_case) : nat * nat :=
-  fold_left (fun acc c => let '(n, k) := acc in
+(* (actions, actions under a proved lemma, judged migrations, migrations all of whose actions are — those are
+   covered by C04_Sim_plan_proved_kinds as a whole) *)
+Definition sim_stats (cs : list mysql_case) : nat * nat * nat * nat :=
+  fold_left (fun acc c => let '(n, k, m, w) := acc in
                           if judged (mc_base c) (mc_actions c)
-                          then let '(n', k') := sim_stats_plan (mc_base c) (mc_actions c) in (n + n', k + k')%nat
-                          else (n, k)) cs (0, 0)%nat.
+                          then let '(n', k') := sim_stats_plan (mc_base c) (mc_actions c) in
+                               (n + n', k + k', S m, if Nat.eqb n' k' then S w else w)%nat
+                          else (n, k, m, w)) cs (0, 0, 0, 0)%nat.
